@@ -659,12 +659,10 @@ class KmipEngine(object):
             return str(managed_object.unique_identifier)
         elif attr_name == 'Name':
             names = list()
-            for name in managed_object.names:
+            for name in managed_object._names:
                 name = attributes.Name(
-                    attributes.Name.NameValue(name),
-                    attributes.Name.NameType(
-                        enums.NameType.UNINTERPRETED_TEXT_STRING
-                    )
+                    attributes.Name.NameValue(name.name),
+                    attributes.Name.NameType(name.name_type)
                 )
                 names.append(name)
             return names
@@ -877,9 +875,11 @@ class KmipEngine(object):
 
         if self._attribute_policy.is_attribute_multivalued(attribute_name):
             if attribute_name == 'Name':
-                managed_object.names.extend(
-                    [x.name_value.value for x in attribute_value]
-                )
+                for x in attribute_value:
+                    managed_object.names.append(x.name_value.value)
+                    if x.name_type is not None:
+                        managed_object._names[-1].name_type = \
+                            x.name_type.value
                 for name in managed_object.names:
                     if managed_object.names.count(name) > 1:
                         raise exceptions.InvalidField(
@@ -969,6 +969,9 @@ class KmipEngine(object):
         elif attribute_name == "Name":
             name_value = attribute_value.name_value
             managed_object.names[attribute_index] = name_value.value
+            if attribute_value.name_type is not None:
+                managed_object._names[attribute_index].name_type = \
+                    attribute_value.name_type.value
         elif attribute_name == "Object Group":
             a = managed_object.object_groups[attribute_index]
             a.object_group = attribute_value.value
